@@ -233,6 +233,19 @@ def check_main(argv=None):
     ap.add_argument('--tier', default=os.environ.get('VERIF_TIER', 'quick'))
     ap.add_argument('--replay', default=None)
     a = ap.parse_args(argv)
+    # wall-clock watchdog: a check that does not finish is not a verdict (exit 2), whatever it was doing
+    budget = int(os.environ.get('VERIF_WALL', '5400' if a.tier == 'thorough' else '2700'))
+
+    def _wall(signum, frame):
+        print(f'HARNESS-TIMEOUT wall clock budget of {budget}s used up (exit 2: this is not a verdict about the property)',
+              flush=True)
+        os._exit(2)
+    try:
+        import signal
+        signal.signal(signal.SIGALRM, _wall)
+        signal.alarm(budget)
+    except (ValueError, AttributeError):
+        pass
     try:
         rc = _check(a.prop.upper(), a.tier if a.tier in ('quick', 'thorough') else 'quick', a.replay)
     except subprocess.TimeoutExpired as e:
